@@ -309,6 +309,18 @@ Theorem C02_script_exactly_once :
 Proof. exact script_exactly_once. Qed.
 Print Assumptions C02_script_exactly_once.
 
+(* the same with hypotheses on what is OBSERVED of the calls: no CancelJob call of the script
+   returned nil and no context cancellation was issued ([Ret Nil] is the status of an issued KCtx
+   call) -- the machine's [cancel_ok] / [ctx_done] flags are raised by nothing else *)
+Theorem C02_script_exactly_once_observable :
+  forall sc, sc_kind sc = OneOff -> sc_variant sc = Fixed ->
+  forall t, In t (finals sc) ->
+    sc_due sc <= sc_end sc ->
+    no_ret_nil sc KCancel (t_calls t) -> no_ret_nil sc KCtx (t_calls t) -> running (t_core t) = 0 ->
+    length (o_starts (outcome_of t)) = 1%nat.
+Proof. exact script_exactly_once_obs. Qed.
+Print Assumptions C02_script_exactly_once_observable.
+
 (* ... and therefore in every OBSERVED outcome that the correspondence check accepts *)
 Theorem C02_checked_observation_never_twice :
   forall c sc os, agree c = true -> c_body c = Timed sc os ->
@@ -354,3 +366,17 @@ Example C02_table_example :
   /\ t_run t1 7 false = ([], Some 1)
   /\ t_schedule (fst (t_run t1 7 false)) 7 2 = ([(7, 2)], Nil).
 Proof. vm_compute. repeat split; reflexivity. Qed.
+
+(* scripts: the tie (RunJob at the job's instant) has final states, all of them meet the
+   hypotheses of C02_script_exactly_once and have one start; in the tree as found one of the final
+   states of the same script has none although RunJob returned nil *)
+Definition tie_script (v : variant) : script :=
+  {| sc_kind := OneOff; sc_variant := v; sc_due := 5; sc_dur := 0; sc_ticks := 0;
+     sc_calls := [ {| cl_at := 5; cl_kind := KRun |} ]; sc_end := 9 |}.
+Example C02_tie_script_fixed_and_pinned :
+  finals (tie_script Fixed) <> []
+  /\ forallb (fun t => negb (cancel_ok (t_core t)) && negb (ctx_done (t_core t)) && (running (t_core t) =? 0)
+                       && (N.of_nat (length (t_starts t)) =? 1)) (finals (tie_script Fixed)) = true
+  /\ existsb (fun o => list_eqb cst_eqb (o_calls o) [Ret Nil] && (N.of_nat (length (o_starts o)) =? 0))
+             (outcomes (tie_script Pinned)) = true.
+Proof. vm_compute. split; [discriminate | split; reflexivity]. Qed.
